@@ -120,6 +120,7 @@ def engine_correspondence(ctx):
         ctx.notes.append("Engine.v correspondence not built yet")
         return
     c01_engine.correspondence(ctx)
+    c01_engine.correspondence_amend(ctx)
 
 
 # ---------------------------------------------------------------------------------------------
